@@ -1051,6 +1051,7 @@ func (cache *reservationCache) updatePod(oldReservationUID, newReservationUID ty
 	oldRInfo := cache.reservationInfos[oldReservationUID]
 	if oldRInfo != nil && oldPod != nil {
 		oldRInfo.RemoveAssignedPod(oldPod)
+		cache.restoreMatchableOnNodeNoLock(oldReservationUID, oldRInfo)
 		// update allocated cache for old reservation
 		if oldRInfo.GetAllocatedPods() == 0 {
 			nodeName := oldRInfo.GetNodeName()
@@ -1078,6 +1079,19 @@ func (cache *reservationCache) updatePod(oldReservationUID, newReservationUID ty
 	}
 }
 
+// restoreMatchableOnNodeNoLock puts the reservation back into the matchable index when it becomes matchable again after
+// its assigned pods were removed, e.g. an allocateOnce reservation whose only pod failed to bind.
+func (cache *reservationCache) restoreMatchableOnNodeNoLock(reservationUID types.UID, rInfo *frameworkext.ReservationInfo) {
+	nodeName := rInfo.GetNodeName()
+	if nodeName == "" || !rInfo.IsMatchable() {
+		return
+	}
+	if cache.matchableOnNode[nodeName] == nil {
+		cache.matchableOnNode[nodeName] = map[types.UID]struct{}{}
+	}
+	cache.matchableOnNode[nodeName][reservationUID] = struct{}{}
+}
+
 func (cache *reservationCache) deletePod(reservationUID types.UID, pod *corev1.Pod) {
 	cache.deletePods(reservationUID, []*corev1.Pod{pod})
 }
@@ -1091,6 +1105,7 @@ func (cache *reservationCache) deletePods(reservationUID types.UID, pods []*core
 		for _, pod := range pods {
 			rInfo.RemoveAssignedPod(pod)
 		}
+		cache.restoreMatchableOnNodeNoLock(reservationUID, rInfo)
 		// update allocated cache
 		if rInfo.GetAllocatedPods() == 0 {
 			nodeName := rInfo.GetNodeName()
